@@ -35,7 +35,7 @@ func genProject(r *rand.Rand, o genOpts) *projSpec {
 		for g := 0; g < ng; g++ {
 			kinds := valueKinds
 			if !o.BigValues {
-				kinds = valueKinds[:14]
+				kinds = valueKinds[:15]
 			}
 			ps.Globals = append(ps.Globals, globalSpec{Name: fmt.Sprintf("G%d", g), Val: genValue(r, kinds)})
 		}
@@ -58,7 +58,7 @@ func genProject(r *rand.Rand, o genOpts) *projSpec {
 	for i := 0; i < nm; i++ {
 		m := moduleSpec{Pkg: pkgs[r.IntN(len(pkgs))], File: fmt.Sprintf("lib%d.dawn", i), Yields: r.IntN(3)}
 		for k := 0; k < 1+r.IntN(2); k++ {
-			m.Consts = append(m.Consts, globalSpec{Name: fmt.Sprintf("LIB%d_K%d", i, k), Val: genValue(r, valueKinds[:14])})
+			m.Consts = append(m.Consts, globalSpec{Name: fmt.Sprintf("LIB%d_K%d", i, k), Val: genValue(r, valueKinds[:15])})
 		}
 		p.Modules = append(p.Modules, m)
 	}
@@ -296,20 +296,20 @@ func genProject(r *rand.Rand, o genOpts) *projSpec {
 				}
 				seenDefault = true
 				ref.Name = "p"
-				ref.Val = genValue(r, valueKinds[:14])
+				ref.Val = genValue(r, valueKinds[:15])
 			case "freevar":
 				if seenFree {
 					continue
 				}
 				seenFree = true
 				ref.Name = "fv"
-				ref.Val = genValue(r, valueKinds[:14])
+				ref.Val = genValue(r, valueKinds[:15])
 			case "lateglobal":
 				if seenLate {
 					continue
 				}
 				seenLate = true
-				ref.Val = genValue(r, valueKinds[:14])
+				ref.Val = genValue(r, valueKinds[:15])
 				ref.Val2 = genValue(r, literalKinds)
 			case "structfn":
 				if seenStruct {
@@ -336,8 +336,8 @@ func genProject(r *rand.Rand, o genOpts) *projSpec {
 					continue
 				}
 				seenTwins = true
-				ref.Val = genValue(r, valueKinds[:14])
-				ref.Val2 = genValue(r, valueKinds[:14])
+				ref.Val = genValue(r, valueKinds[:15])
+				ref.Val2 = genValue(r, valueKinds[:15])
 			case "cacheonce":
 				if seenCache {
 					continue
@@ -629,7 +629,7 @@ func (p *projSpec) buildLabels() []string {
 func genExts(r *rand.Rand, p *projSpec, cycles bool) {
 	ne := 1 + r.IntN(3)
 	for i := 0; i < ne; i++ {
-		e := extSpec{Sel: r.IntN(len(extVersions)), Val: genValue(r, valueKinds[:14]), Lit: genValue(r, literalKinds), Loads: -1, Util: r.IntN(3) == 0, Yields: r.IntN(3), Same: r.IntN(6) == 0}
+		e := extSpec{Sel: r.IntN(len(extVersions)), Val: genValue(r, valueKinds[:15]), Lit: genValue(r, literalKinds), Loads: -1, Util: r.IntN(3) == 0, Yields: r.IntN(3), Same: r.IntN(6) == 0}
 		if i+1 < ne && r.IntN(2) == 0 {
 			e.Loads = i + 1 + r.IntN(ne-i-1)
 		}
